@@ -239,7 +239,8 @@ def synthetic(rnd, enduse=None, plant=None, econ=None, resmodel=None, life=None,
         add('Injection Reservoir Initial Pressure', dec(rnd, 5000, 20000, 0))
         add('Injection Reservoir Inflation Rate', dec(rnd, 50, 800, 0))
     # (the add-on report writer crashes unless there is exactly one construction year: not an accepted input)
-    if opts.get('addons', rnd.random() < 0.25) and cy == 1:
+    # (with more than one construction year the add-on report writer of the pinned tree aborts: only with addons_any_cy=True)
+    if opts.get('addons', rnd.random() < 0.25) and (cy == 1 or opts.get('addons_any_cy')):
         n = rnd.randint(1, 3)
         for i in range(1, n + 1):
             add(f'AddOn Nickname {i}', f'addon{i}')
